@@ -340,25 +340,69 @@ theorem gen_loader_matches_claim : decodeTable.all rowConsistent = true := by de
 set_option maxRecDepth 8000 in
 theorem gen_table_length : decodeTable.length = 256 := by decide
 
-/-- aws callback table of cbor.c (`s_callbacks`): the aws type each libcbor callback produces -/
+/-- model type for an `AWS_CBOR_TYPE_*` name -/
+def tyOfName (n : String) : Option Ty :=
+  if n = "AWS_CBOR_TYPE_UINT" then some .uint else if n = "AWS_CBOR_TYPE_NEGINT" then some .negint
+  else if n = "AWS_CBOR_TYPE_FLOAT" then some .float else if n = "AWS_CBOR_TYPE_BYTES" then some .bytes
+  else if n = "AWS_CBOR_TYPE_TEXT" then some .text else if n = "AWS_CBOR_TYPE_ARRAY_START" then some .arrayStart
+  else if n = "AWS_CBOR_TYPE_MAP_START" then some .mapStart else if n = "AWS_CBOR_TYPE_TAG" then some .tag
+  else if n = "AWS_CBOR_TYPE_BOOL" then some .bool else if n = "AWS_CBOR_TYPE_NULL" then some .null
+  else if n = "AWS_CBOR_TYPE_UNDEFINED" then some .undefined else if n = "AWS_CBOR_TYPE_BREAK" then some .brk
+  else if n = "AWS_CBOR_TYPE_INDEF_BYTES_START" then some .indefBytes
+  else if n = "AWS_CBOR_TYPE_INDEF_TEXT_START" then some .indefText
+  else if n = "AWS_CBOR_TYPE_INDEF_ARRAY_START" then some .indefArray
+  else if n = "AWS_CBOR_TYPE_INDEF_MAP_START" then some .indefMap else none
+
+/-- the aws type a libcbor callback slot produces, read off the regenerated `s_callbacks` table of cbor.c -/
 def callbackTy (cb : String) : Option Ty :=
-  if cb = "uint8" ∨ cb = "uint16" ∨ cb = "uint32" ∨ cb = "uint64" then some .uint
-  else if cb = "negint8" ∨ cb = "negint16" ∨ cb = "negint32" ∨ cb = "negint64" then some .negint
-  else if cb = "byte_string" then some .bytes
-  else if cb = "byte_string_start" then some .indefBytes
-  else if cb = "string" then some .text
-  else if cb = "string_start" then some .indefText
-  else if cb = "array_start" then some .arrayStart
-  else if cb = "indef_array_start" then some .indefArray
-  else if cb = "map_start" then some .mapStart
-  else if cb = "indef_map_start" then some .indefMap
-  else if cb = "tag" then some .tag
-  else if cb = "float2" ∨ cb = "float4" ∨ cb = "float8" then some .float
-  else if cb = "undefined" then some .undefined
-  else if cb = "null" then some .null
-  else if cb = "boolean" then some .bool
-  else if cb = "indef_break" then some .brk
-  else none
+  match awsCallbacks.find? (fun r => r.1 == cb) with
+  | some r => tyOfName r.2.2.1
+  | none => none
+
+set_option maxRecDepth 20000 in
+/-- `s_callbacks`, regenerated: every libcbor slot is served by the aws callback of the matching kind, which
+stores exactly one element type and the libcbor argument itself, widened by the one cast shown (8/16/32-bit
+integers to `uint64_t`, half/single floats to `double`) — no arithmetic, no truncation -/
+theorem gen_callbacks :
+    awsCallbacks = [
+  ("uint8", "s_uint8_callback", "AWS_CBOR_TYPE_UINT", "unsigned_int_val", "uint64_t"),
+  ("uint16", "s_uint16_callback", "AWS_CBOR_TYPE_UINT", "unsigned_int_val", "uint64_t"),
+  ("uint32", "s_uint32_callback", "AWS_CBOR_TYPE_UINT", "unsigned_int_val", "uint64_t"),
+  ("uint64", "s_unsigned_int_val_callback", "AWS_CBOR_TYPE_UINT", "unsigned_int_val", ""),
+  ("negint64", "s_negative_int_val_callback", "AWS_CBOR_TYPE_NEGINT", "negative_int_val", ""),
+  ("negint32", "s_negint32_callback", "AWS_CBOR_TYPE_NEGINT", "negative_int_val", "uint64_t"),
+  ("negint16", "s_negint16_callback", "AWS_CBOR_TYPE_NEGINT", "negative_int_val", "uint64_t"),
+  ("negint8", "s_negint8_callback", "AWS_CBOR_TYPE_NEGINT", "negative_int_val", "uint64_t"),
+  ("byte_string_start", "s_inf_bytes_callback", "AWS_CBOR_TYPE_INDEF_BYTES_START", "", ""),
+  ("byte_string", "s_bytes_callback", "AWS_CBOR_TYPE_BYTES", "bytes_val.len,bytes_val.ptr", ""),
+  ("string", "s_str_callback", "AWS_CBOR_TYPE_TEXT", "text_val.len,text_val.ptr", ""),
+  ("string_start", "s_inf_str_callback", "AWS_CBOR_TYPE_INDEF_TEXT_START", "", ""),
+  ("indef_array_start", "s_inf_array_callback", "AWS_CBOR_TYPE_INDEF_ARRAY_START", "", ""),
+  ("array_start", "s_array_start_callback", "AWS_CBOR_TYPE_ARRAY_START", "array_start", ""),
+  ("indef_map_start", "s_inf_map_callback", "AWS_CBOR_TYPE_INDEF_MAP_START", "", ""),
+  ("map_start", "s_map_start_callback", "AWS_CBOR_TYPE_MAP_START", "map_start", ""),
+  ("tag", "s_tag_val_callback", "AWS_CBOR_TYPE_TAG", "tag_val", ""),
+  ("float2", "s_float_callback", "AWS_CBOR_TYPE_FLOAT", "float_val", "double"),
+  ("float4", "s_float_callback", "AWS_CBOR_TYPE_FLOAT", "float_val", "double"),
+  ("float8", "s_float_val_callback", "AWS_CBOR_TYPE_FLOAT", "float_val", ""),
+  ("undefined", "s_undefined_callback", "AWS_CBOR_TYPE_UNDEFINED", "", ""),
+  ("null", "s_null_callback", "AWS_CBOR_TYPE_NULL", "", ""),
+  ("boolean", "s_boolean_val_callback", "AWS_CBOR_TYPE_BOOL", "boolean_val", ""),
+  ("indef_break", "s_inf_break_callback", "AWS_CBOR_TYPE_BREAK", "", "")] := by decide
+
+set_option maxRecDepth 20000 in
+/-- the bookkeeping functions of cbor.c are literally: new = calloc + init 256; reset = `aws_byte_buf_reset`;
+encoded data = the whole buffer; position = buffer + len; remaining = capacity - len; decoder_new = calloc + src +
+empty cache; remaining length = src.len -/
+theorem gen_accessors :
+    accessorBodies = [
+  ("aws_cbor_encoder_new", "{encoder=aws_mem_calloc(allocator,1,<UnaryExprOrTypeTraitExpr>); (encoder->allocator=allocator) aws_byte_buf_init(&encoder->encoded_buf,allocator,256) return encoder;}"),
+  ("aws_cbor_encoder_reset", "{aws_byte_buf_reset(&encoder->encoded_buf,0)}"),
+  ("aws_cbor_encoder_get_encoded_data", "{return aws_byte_cursor_from_buf(&encoder->encoded_buf);}"),
+  ("s_get_encoder_current_position", "{return (encoder->encoded_buf.buffer+encoder->encoded_buf.len);}"),
+  ("s_get_encoder_remaining_len", "{return (encoder->encoded_buf.capacity-encoder->encoded_buf.len);}"),
+  ("aws_cbor_decoder_new", "{decoder=aws_mem_calloc(allocator,1,<UnaryExprOrTypeTraitExpr>); (decoder->allocator=allocator) (decoder->src=src) (decoder->cached_context.type=AWS_CBOR_TYPE_UNKNOWN) return decoder;}"),
+  ("aws_cbor_decoder_get_remaining_length", "{return decoder->src.len;}")] := by decide
 
 /-- integer argument of an element, where it has one -/
 def itemArg : Item → Option Nat
